@@ -29,6 +29,8 @@ def cases(tier, seed):
 
 def run_case(scn):
     t = record.run_solver(scn, listener=False)
+    if t.fp_exhausted:
+        return {"violations": [], "obs": {"fp_domain_exhausted": 1}, "skip": "fp-domain-exhausted"}
     viol = []
     lo, hi = scn["lower"], scn["upper"]
     if t.swallowed or t.aborted:
